@@ -3,6 +3,7 @@ package props
 
 import (
 	"bufio"
+	"os/exec"
 	"crypto/sha256"
 	"encoding/hex"
 	"encoding/json"
@@ -41,6 +42,9 @@ type Check struct {
 	// Guards: notes that must be > 0 and minimal number of distinct outcomes.
 	RequireNotes []string
 	MinOutcomes  int
+	// Sharded: Custom is run in NShards worker processes (scheduler worlds are process-global);
+	// each worker handles the work items i with i % NShards == Shard.
+	Sharded bool
 }
 
 // RunCtx carries run parameters.
@@ -51,6 +55,9 @@ type RunCtx struct {
 	Deadline time.Time
 	Only     string // restrict to one scenario (debugging)
 	Verbose  bool
+	Shard    int // -1: coordinator / unsharded
+	NShards  int
+	Partial  string // worker: write the partial report here instead of finishing
 }
 
 // Report accumulates what a run covered.
@@ -248,7 +255,20 @@ func RunCheck(c *Check, rc *RunCtx) int {
 		}
 	}
 	if c.Custom != nil && (rc.Only == "" || rc.Only == "custom") {
-		c.Custom(rc, rep)
+		switch {
+		case c.Sharded && rc.Partial == "":
+			runShards(c, rc, rep)
+		default:
+			c.Custom(rc, rep)
+		}
+	}
+	if rc.Partial != "" {
+		b, _ := json.Marshal(rep)
+		if err := os.WriteFile(rc.Partial, b, 0o644); err != nil {
+			fmt.Fprintln(os.Stderr, "cannot write partial report:", err)
+			return 2
+		}
+		return 0
 	}
 	return finish(c, rc, rep, start)
 }
@@ -521,3 +541,87 @@ func Replay(path string) int {
 }
 
 var replayCustom = map[string]func(*ReplayFile) int{}
+
+func xplorViolation(clause, detail string, attrs map[string]string, choices []int, labels []string) xplor.Violation {
+	return xplor.Violation{Clause: clause, Detail: detail, Attrs: attrs, Choices: choices, Labels: labels}
+}
+
+// runShards runs the check's Custom part in worker processes and merges their reports.
+func runShards(c *Check, rc *RunCtx, rep *Report) {
+	n := rc.Workers
+	if n < 1 {
+		n = 1
+	}
+	exe, err := os.Executable()
+	if err != nil {
+		rep.Broken = append(rep.Broken, "cannot find own executable: "+err.Error())
+		return
+	}
+	dir := filepath.Join(VerifDir, ".build")
+	_ = os.MkdirAll(dir, 0o755)
+	type result struct {
+		i   int
+		err error
+		out []byte
+	}
+	ch := make(chan result, n)
+	for i := 0; i < n; i++ {
+		go func(i int) {
+			partial := filepath.Join(dir, fmt.Sprintf("partial-%s-%d-%d.json", c.ID, os.Getpid(), i))
+			args := []string{"-shard", fmt.Sprintf("%d/%d", i, n), "-partial", partial}
+			if !rc.Deadline.IsZero() {
+				args = append(args, "-budget", time.Until(rc.Deadline).String())
+			}
+			args = append(args, c.ID, rc.Tier)
+			cmd := exec.Command(exe, args...)
+			cmd.Env = append(os.Environ(), "GOMAXPROCS=2")
+			out, err := cmd.CombinedOutput()
+			ch <- result{i, err, out}
+		}(i)
+	}
+	for k := 0; k < n; k++ {
+		r := <-ch
+		partial := filepath.Join(dir, fmt.Sprintf("partial-%s-%d-%d.json", c.ID, os.Getpid(), r.i))
+		if r.err != nil {
+			rep.Broken = append(rep.Broken, fmt.Sprintf("shard %d failed: %v\n%s", r.i, r.err, firstLines(string(r.out), 15)))
+			continue
+		}
+		b, err := os.ReadFile(partial)
+		_ = os.Remove(partial)
+		var p Report
+		if err == nil {
+			err = json.Unmarshal(b, &p)
+		}
+		if err != nil {
+			rep.Broken = append(rep.Broken, fmt.Sprintf("shard %d: unreadable partial report: %v", r.i, err))
+			continue
+		}
+		rep.Executions += p.Executions
+		rep.Skipped += p.Skipped
+		rep.States += p.States
+		rep.Transitions += p.Transitions
+		rep.TracesImpl += p.TracesImpl
+		for k2 := range p.Nontrivial {
+			rep.Nontrivial[k2] = struct{}{}
+		}
+		for k2, v := range p.Outcomes {
+			rep.Outcomes[k2] += v
+		}
+		for k2, v := range p.Notes {
+			rep.Notes[k2] += v
+		}
+		for k2, v := range p.Extra {
+			if _, ok := rep.Extra[k2]; !ok {
+				rep.Extra[k2] = v
+			}
+		}
+		if len(rep.Samples) < 6 {
+			rep.Samples = append(rep.Samples, p.Samples...)
+		}
+		rep.Violations = append(rep.Violations, p.Violations...)
+		rep.Broken = append(rep.Broken, p.Broken...)
+		if !p.Exhaustive {
+			rep.Exhaustive = false
+		}
+	}
+}
